@@ -1087,7 +1087,7 @@ def hist_hash(h):
     return hashlib.sha256(spec_text(h).encode()).hexdigest()[:16]
 
 
-def common_stage(chk, pid, n_quick=240, n_thorough=2000):
+def common_stage(chk, pid, n_quick=240, n_thorough=1500):
     """proof stage + harness build + shared base run.  Returns data or None (harness did not build)."""
     props = os.path.join(vlib.COQ, "theories", "Props", "%s.v" % pid)
     vlib.proof_stage(chk, props)
